@@ -108,6 +108,16 @@ var corpus = []variant{
 	{"C11-stat-returns-live-info", "C11", "C11.handle-info-not-shared", []edit{{"pkg/fs/file.go", "func (f *File) Stat()", "	info := *f.info\n	if f.link != \"\" {\n		info.name = path.Base(f.link)\n	}\n\n	return &info, nil\n", "	_ = path.Base\n\n	return f.info, nil\n"}}},
 	{"C14-negative-read-seek-accepted", "C14", "C14.negative-seek-refused", []edit{{"pkg/fs/file.go", "func (f *File) seekWithoutLocking(", "	// There is nothing in front of the first byte\n	if dst < 0 {\n		return 0, os.ErrInvalid\n	}\n\n	if f.readOpReader == nil", "	if f.readOpReader == nil"}}},
 	{"C10-indexed-callback-unguarded", "C10", "C10.optional-callback-guarded", []edit{{"pkg/operations/delete.go", "func (o *Operations) Delete(", "			if o.onHeader != nil {\n				o.onHeader(&config.HeaderEvent{\n					Type:    config.HeaderEventTypeDelete,\n					Indexed: true,\n					Header:  hdr,\n				})\n			}\n", "			o.onHeader(&config.HeaderEvent{\n				Type:    config.HeaderEventTypeDelete,\n				Indexed: true,\n				Header:  hdr,\n			})\n"}}},
+	{"C02-write-reverts-attributes", "C02", "C02.write-record-attributes-current", []edit{{"pkg/fs/file.go", "func (f *File) syncWithoutLocking()", "		); err == nil {\n			f.info = NewFileInfoFromTarHeader(current, f.log)\n		}\n", "		); err == nil {\n			_ = current\n		}\n"}}},
+	{"C14-sync-hands-over-the-buffer", "C14", "C14.sync-keeps-buffer-open", []edit{{"pkg/fs/file.go", "func (f *File) syncWithoutLocking()", "						return keepOpen{f.writeBuf}, nil\n", "						return f.writeBuf, nil\n"}}},
+	{"C14-sync-leaves-cursor-at-end", "C14", "C14.sync-keeps-buffer-open", []edit{{"pkg/fs/file.go", "func (f *File) syncWithoutLocking()", "		if _, err := f.writeBuf.Seek(position, io.SeekStart); err != nil {\n			return err\n		}\n", "		_ = position\n"}}},
+	{"C02-excl-never-creates", "C02", "C02.exclusive-create", []edit{{"pkg/fs/filesystem.go", "func (f *STFS) OpenFile(", "				if !f.readOnly && flag&os.O_CREATE != 0 {\n", "				if !f.readOnly && flag&os.O_CREATE != 0 && flag&os.O_EXCL == 0 {\n"}}},
+	{"C02-excl-opens-existing", "C02", "C02.exclusive-create", []edit{{"pkg/fs/filesystem.go", "func (f *STFS) OpenFile(", "	if err == nil && flag&os.O_CREATE != 0 && flag&os.O_EXCL != 0 {\n		// `O_EXCL` asks for an entry that does not exist yet\n		return nil, os.ErrExist\n	}\n\n", ""}}},
+	{"C05-padding-only-below-one-record", "C05", "C05.tape-padding-modulo-record", []edit{{"internal/tarext/write.go", "", "				if rest := counter.BytesRead % (config.MagneticTapeBlockSize * recordSize); rest > 0 {\n", "				if rest := counter.BytesRead; config.MagneticTapeBlockSize*recordSize-rest > 0 {\n"}}},
+	{"C13-limit-inside-like-statement", "C13", "C13.limit-after-filter", []edit{{"pkg/persisters/metadata.go", "func (p *MetadataPersister) GetHeaderDirectChildren(", "		if err := queries.Raw(\n			query,\n			prefix,\n			prefix,\n			prefix+\"%\",\n			rootDepth,\n			rootDepth+1,\n		).Bind(", "		if err := queries.Raw(\n			query+`limit ?`,\n			prefix,\n			prefix,\n			prefix+\"%\",\n			rootDepth,\n			rootDepth+1,\n			limit+1,\n		).Bind("}}},
+	{"C06-cut-member-reads-as-empty", "C06", "C06.missing-member-is-an-error", []edit{{"pkg/recovery/fetch.go", "", "		if err == io.EOF {\n			return io.ErrUnexpectedEOF\n		}\n\n", ""}}},
+	{"C17-metadata-update-zeroes-size", "C17", "C17.metadata-update-keeps-size", []edit{{"pkg/operations/update.go", "", "			hdr.PAXRecords[records.STFSRecordUncompressedSize] = strconv.Itoa(int(hdr.Size))\n			hdr.Size = 0 // Don't try to seek after the record\n", "			hdr.Size = 0 // Don't try to seek after the record\n"}}},
+	{"C14-truncate-empties-before-growing", "C14", "C14.truncate-preserves-content", []edit{{"pkg/fs/file.go", "func (f *File) Truncate(", "	if err := f.writeBuf.Truncate(size); err != nil {\n", "	if err := f.writeBuf.Truncate(0); err != nil {\n"}}},
 	{"C14-truncation-only-on-first-write", "C14", "C14.truncate-at-open", []edit{{"pkg/fs/filesystem.go", "func (f *STFS) OpenFile(", "	if flags.Truncate && flags.Write && hdr.Typeflag != tar.TypeDir && hdr.Size > 0 {\n		if err := file.enterWriteMode(); err != nil {\n			return nil, err\n		}\n	}\n", ""}}},
 	{"C02-rename-onto-itself", "C02", "C02.rename-onto-itself-kept", []edit{{"pkg/fs/filesystem.go", "func (f *STFS) Rename(", "		if target.Name == source.Name && target.Linkname == source.Linkname {\n			return nil\n		}\n\n", ""}}},
 	{"C12-like-filter-removed", "C12", "C12.like-safety", []edit{{"pkg/persisters/metadata.go", "func (p *MetadataPersister) GetHeaderChildren(", "		if !strings.HasPrefix(hdr.Name, childPrefix) {\n			continue\n		}\n\n", ""}}},
@@ -121,7 +131,7 @@ var corpus = []variant{
 	{"C13-mkdirall-splitlist", "C13", "C13.all-ancestors", []edit{{"pkg/fs/filesystem.go", "", "	parts := strings.Split(path, string(filepath.Separator))\n", "	parts := filepath.SplitList(path)\n"}}},
 	// C14
 	{"C14-seek-end-sign", "C14", "C14.whence-algebra", []edit{{"pkg/fs/file.go", "", "		dst = f.info.Size() + offset\n", "		dst = f.info.Size() - offset\n"}}},
-	{"C14-write-without-flag", "C14", "C14.access-gating", []edit{{"pkg/fs/file.go", "func (f *File) Write(p []byte)", "	if !f.flags.Write {\n		return -1, os.ErrPermission\n	}\n\n", ""}}},
+	{"C14-write-without-flag", "C14", "C14.access-gating", []edit{{"pkg/fs/file.go", "func (f *File) Write(p []byte)", "	if !f.flags.Write {\n		return 0, os.ErrPermission\n	}\n\n", ""}}},
 	{"C14-flush-skips-empty", "C14", "C14.flush-on-close", []edit{{"pkg/fs/file.go", "func (f *File) syncWithoutLocking()", "			true,\n			true,\n		); err != nil {\n", "			true,\n			false,\n		); err != nil {\n"}}},
 	{"C14-seek-returns-count", "C14", "C14.seek-returns-position", []edit{{"pkg/fs/file.go", "", "	_, err := io.CopyN(io.Discard, f.readOpReader, dst-int64(f.readOpReader.BytesRead))\n", "	n, err := io.CopyN(io.Discard, f.readOpReader, dst-int64(f.readOpReader.BytesRead))\n"}, {"pkg/fs/file.go", "", "	return dst, nil\n}\n\n// Inventory", "	return n, nil\n}\n\n// Inventory"}}},
 	// C15
